@@ -6,7 +6,7 @@ Model driver for the `sched` line protocol of C08 (fsloop).  One case per input 
 
   <node>  ::= f | d(<kids>) | x(<kids>)          (x = directory whose ReadDir fails)
   <kids>  ::= ε | <name>:<node>{,<name>:<node>}
-  <tok>   ::= p | P | k | K | c<i> | g<i>
+  <tok>   ::= p | P | k | K | c<i> | g<i> | x | e | t | w | D
 
 The producers run with `Producents: 1` (every directory is listed inline), which is what makes the
 real run gateable: the producer parks before every `ReadDir` and every filter call.  The schedule
@@ -14,19 +14,30 @@ is coarse: one token lets one goroutine run from its park point to its next park
 model replays as the corresponding sequence of fine transitions of `Goat.Loop.sys`:
 
   p     the producer passes the gate it is parked at (a `list`/`filtD`/`filtF` action) and runs up
-        to its next gate                                       -> p:list:<path> | p:fd:<path> | p:ff:<path> | p:noop
-  P     `p` until the producer has finished
+        to its next gate, to its end (including `pool.Done`), or until it blocks in a send on a full
+        channel                                  -> p:list:<path> | p:fd:<path> | p:ff:<path> | p:noop | p:blocked
+  P     `p` until the producer has finished or is blocked
   k     the closer, once the producers are done: first `NextStep(StepClose)`, then the two `close`s
                                                                -> k:announced | k:closed | k:noop
   K     `k` twice
   c<i>  consumer i runs to its next park point (loop top, the gap between its two reads, inside a
-        callback, the deferred exit hook, gone)                -> c<i>:top | :gap | :cbd:<path> | :cbf:<path> | :exit | :gone | :noop
+        callback, the deferred exit hook, gone); afterwards a producer that was blocked in a send
+        runs on to its next gate / end / block     -> c<i>:top | :gap | :cbd:<path> | :cbf:<path> | :exit | :gone | :noop
   g<i>  `c<i>` until consumer i is parked in the gap (at most 8 times)
+  x     environment: scope Kill event (`Loop.KillSlot` → `lifecycle.Kill()`)      -> x:ok
+  e     environment: scope Error event (the same slot)                             -> e:ok
+  t     environment: the lifecycle's deadline passes                               -> t:ok
+  w     probe: has `Loop.Wait()` returned?                                         -> w:returned | w:pending
+  D     deterministic drain: rounds of `p`, `c0` … `c<n-1>`, `k` until every consumer is gone and the
+        closer has finished or the producer is blocked for good
 
-After the first failure (failing listing executed, failing callback returned) the step-by-step
-comparison stops (`!killed`): what producers skip after a kill is timing dependent.  After the
-schedule everything runs to completion (round-robin) and the line ends with the summary:
-  | done=<sorted callbacks> wait=ok oracle=ok      or      | killed oracle=ok
+The comparison goes on after a kill (callback or listing error, x, e, t): with a single producer and
+the environment acts injected between tokens, what the producer skips is a function of the schedule.
+After the schedule: when everything has settled (every consumer gone; closer finished or producer
+blocked) the line ends with
+  | done=<sorted callbacks> errs=<Errors() in order> wait=ok prods=done|stuck oracle=ok
+otherwise everything runs to completion freely and the line ends with
+  | done=<sorted callbacks> wait=ok oracle=ok      or (killed at any time)      | killed oracle=ok
 -/
 import Goat.Model.Loop
 open Goat Goat.Loop Goat.LTS
@@ -116,36 +127,53 @@ def isGate : PAct → Bool
   | _ => false
 
 def gateObs : PAct → String
-  | .list p sl _ => "list:" ++ p ++ (if sl then "/" else "")
+  | .list p sl _ _ => "list:" ++ p ++ (if sl then "/" else "")
   | .filtD p _ => "fd:" ++ p
   | .filtF p _ => "ff:" ++ p
   | _ => "?"
 
 def nxt (P : Params) (s : St) (l : Label) : St := (step P s l).getD s
 
-/-- non-gate producer actions up to the next gate -/
+/-- the (single) producer has executed `pool.Done()` -/
+def prodGone (s : St) : Bool :=
+  match (s.prods.head? : Option Prod) with
+  | some .gone => true
+  | none => true
+  | _ => false
+
+/-- the gate the producer is parked at -/
+def prodGate (s : St) : Option PAct :=
+  match (s.prods.head? : Option Prod) with
+  | some (.run (a :: _)) => if isGate a then some a else none
+  | _ => none
+
+/-- the producer is neither at a gate nor gone: it is blocked in a send (the only action between
+gates that can be disabled) -/
+def prodBlocked (s : St) : Bool := !prodGone s && (prodGate s).isNone
+
+/-- non-gate producer actions up to the next gate, the end (including `pool.Done`) or a blocked send -/
 partial def runToGate (P : Params) (s : St) (fuel : Nat) : St :=
-  match fuel, s.pending with
-  | 0, _ => s
-  | _, [] => s
-  | f + 1, a :: _ =>
-    if isGate a then s
-    else match step P s .prod with
+  match fuel with
+  | 0 => s
+  | f + 1 =>
+    if prodGone s || (prodGate s).isSome then s
+    else match step P s (.prod 0) with
       | some t => runToGate P t f
       | none => s
 
 def stepP (P : Params) (s : St) : St × String :=
-  match s.pending with
-  | [] => (s, "p:noop")
-  | a :: _ =>
-    match step P s .prod with
+  if prodGone s then (s, "p:noop")
+  else match prodGate s with
     | none => (s, "p:blocked")
-    | some t => (runToGate P t 100000, "p:" ++ gateObs a)
+    | some a =>
+      match step P s (.prod 0) with
+      | none => (s, "p:blocked")
+      | some t => (runToGate P t 1000000, "p:" ++ gateObs a)
 
 def stepK (P : Params) (s : St) : St × String :=
   match s.closer with
   | .waiting =>
-    if s.pending.isEmpty then (nxt P (nxt P s .closer) .closer, "k:announced") else (s, "k:noop")
+    if s.ppool = 0 then (nxt P (nxt P s .closer) .closer, "k:announced") else (s, "k:noop")
   | .waited => (nxt P s .closer, "k:announced")
   | .announced => (nxt P (nxt P s .closer) .closer, "k:closed")
   | .closedD => (nxt P s .closer, "k:closed")
@@ -178,15 +206,30 @@ def stepC (P : Params) (s : St) (i : Nat) : St × String :=
   | some .exited => (s, s!"c{i}:noop")
   | some _ =>
     let (t, o) := runToPark P s i 64
-    (t, s!"c{i}:{o}")
+    -- a producer that was blocked in a send runs on when the consumer has made room
+    (runToGate P t 1000000, s!"c{i}:{o}")
 
 def atGap (P : Params) (s : St) (i : Nat) : Bool :=
   match s.cons[i]? with
   | some pc => parkObs P pc == some "gap"
   | none => false
 
+def allGone (s : St) : Bool := s.cons.all (fun pc => pc == .exited)
+
+/-- everything has settled: every consumer gone, and the closer finished or the producer blocked -/
+def settled (s : St) : Bool := allGone s && (s.closer == .fin || prodBlocked s)
+
+partial def drainRounds (P : Params) (n : Nat) (s : St) (acc : List String) (fuel : Nat) : St × List String :=
+  if fuel = 0 || settled s then (s, acc.reverse)
+  else
+    let (s1, o1) := stepP P s
+    let (s2, acc2) := (List.range n).foldl
+      (fun (st : St × List String) i => let (t, o) := stepC P st.1 i; (t, o :: st.2)) (s1, o1 :: acc)
+    let (s3, o3) := stepK P s2
+    drainRounds P n s3 (o3 :: acc2) (fuel - 1)
+
 /-- run one token; returns the new state and its observations -/
-partial def runTok (P : Params) (s : St) (tok : String) : St × List String :=
+partial def runTok (P : Params) (n : Nat) (s : St) (tok : String) : St × List String :=
   if tok = "p" then let (t, o) := stepP P s; (t, [o])
   else if tok = "k" then let (t, o) := stepK P s; (t, [o])
   else if tok = "K" then
@@ -195,9 +238,14 @@ partial def runTok (P : Params) (s : St) (tok : String) : St × List String :=
     (u, [o, o2])
   else if tok = "P" then
     let rec goP (s : St) (acc : List String) (fuel : Nat) : St × List String :=
-      if fuel = 0 || s.pending.isEmpty || s.killed then (s, acc.reverse)
+      if fuel = 0 || prodGone s || prodBlocked s then (s, acc.reverse)
       else let (t, o) := stepP P s; goP t (o :: acc) (fuel - 1)
     goP s [] 100000
+  else if tok = "x" then (nxt P s .kill, ["x:ok"])
+  else if tok = "e" then (nxt P s .errEvent, ["e:ok"])
+  else if tok = "t" then (nxt P s .timeout, ["t:ok"])
+  else if tok = "w" then (s, [if s.poolCtr = 0 then "w:returned" else "w:pending"])
+  else if tok = "D" then drainRounds P n s [] 100000
   else if tok.startsWith "c" then
     match (tok.drop 1).toString.toNat? with
     | some i => let (t, o) := stepC P s i; (t, [o])
@@ -206,7 +254,7 @@ partial def runTok (P : Params) (s : St) (tok : String) : St × List String :=
     match (tok.drop 1).toString.toNat? with
     | some i =>
       let rec goG (s : St) (acc : List String) (fuel : Nat) : St × List String :=
-        if fuel = 0 || atGap P s i || s.killed then (s, acc.reverse)
+        if fuel = 0 || atGap P s i then (s, acc.reverse)
         else
           let (t, o) := stepC P s i
           if o.endsWith ":noop" then (t, (o :: acc).reverse) else goG t (o :: acc) (fuel - 1)
@@ -214,37 +262,47 @@ partial def runTok (P : Params) (s : St) (tok : String) : St × List String :=
     | none => (s, ["bad-token"])
   else (s, ["bad-token"])
 
-partial def runSched (P : Params) (s : St) (toks : List String) (acc : List String) : St × List String :=
+partial def runSched (P : Params) (n : Nat) (s : St) (toks : List String) (acc : List String) : St × List String :=
   match toks with
   | [] => (s, acc)
   | tok :: rest =>
-    if s.killed then (s, acc)
-    else
-      let (t, obs) := runTok P s tok
-      runSched P t rest (acc ++ obs)
+    let (t, obs) := runTok P n s tok
+    runSched P n t rest (acc ++ obs)
 
 /-- everything runs to completion: fair round-robin -/
 partial def drain (P : Params) (n : Nat) (s : St) (fuel : Nat) : St :=
   if fuel = 0 || s.poolCtr = 0 then s
   else
-    let s1 := nxt P (nxt P s .prod) .closer
+    let s1 := nxt P (nxt P s (.prod 0)) .closer
     let s2 := (List.range n).foldl (fun acc i => nxt P acc (.cons i)) s1
     drain P n s2 (fuel - 1)
 
 def itemStr (x : Item) : String := (if x.1 then "d" else "f") ++ x.2
+
+def errStr : Err → String
+  | .cb d p => "cb:" ++ itemStr (d, p)
+  | .listing p => "list:" ++ p
+  | .canceled => "canceled"
+  | .deadline => "deadline"
 
 def sortStrs (l : List String) : List String := (l.toArray.qsort (· < ·)).toList
 
 def runCase (c : Case) : String :=
   let P : Params := { capD := 1000, capF := 1000, fixedOrder := c.fixed,
                       failCb := fun d p => c.failcb.contains (itemStr (d, p)) }
-  let acts := (producerSeqs c.cfg (fun _ => false) c.root c.listable c.kids).flatten
-  let s0 := init acts c.n
-  let (s1, obs) := runSched P s0 c.sched []
+  let prog := rootProg c.cfg (fun _ => false) c.root c.listable c.kids
+  let s0 := init prog c.n
+  let (s1, obs) := runSched P c.n s0 c.sched []
   let steps := " ".intercalate obs
-  if s1.killed then s!"{steps} !killed | killed oracle=ok"
+  if settled s1 then
+    let done := ";".intercalate (sortStrs (s1.done.map itemStr))
+    let errs := ";".intercalate ((errorsOf s1).map errStr)
+    let w := if s1.poolCtr = 0 then "ok" else "hang"
+    let pr := if prodBlocked s1 then "stuck" else "done"
+    s!"{steps} | done={done} errs={errs} wait={w} prods={pr} oracle=ok"
+  else if s1.killed then s!"{steps} | killed oracle=ok"
   else
-    let s2 := drain P c.n s1 (200 + 40 * (acts.length + c.n))
+    let s2 := drain P c.n s1 (200 + 40 * (sizeL prog + c.n))
     if s2.killed then s!"{steps} | killed oracle=ok"
     else
       let done := ";".intercalate (sortStrs (s2.done.map itemStr))
